@@ -110,4 +110,52 @@ def stepLine (s : St) (ws : List String) : St × String :=
       | _, _ => bad
   | _ => bad
 
-def main : IO Unit := loopState St.empty stepLine
+/-! Interpreter plumbing only: between requests the state is kept as plain arrays (extensionally the same
+functions on every object / grid id ever created; the initial defaults beyond), so that look-ups do not
+walk a chain of update closures that grows with the length of the edit sequence. -/
+structure Data where
+  parent : Array (Option Nat)
+  kids : Array (List Nat)
+  loc : Array (Option Nat)
+  grid : Array (Option Nat)
+  owner : Array (Option Nat)
+  kind : Array Nat
+  flags : Array Nat
+  typ : Array Nat
+  next : Nat
+  nextGrid : Nat
+
+def Data.empty : Data :=
+  { parent := #[], kids := #[], loc := #[], grid := #[], owner := #[], kind := #[], flags := #[], typ := #[],
+    next := 0, nextGrid := 0 }
+
+def inject (d : Data) : St :=
+  { parent := fun x => d.parent.getD x none
+    kids := fun x => d.kids.getD x []
+    loc := fun x => d.loc.getD x none
+    grid := fun x => d.grid.getD x none
+    owner := fun g => d.owner.getD g none
+    kind := fun x => d.kind.getD x 0
+    flags := fun x => d.flags.getD x 0
+    typ := fun x => d.typ.getD x 0
+    next := d.next
+    nextGrid := d.nextGrid }
+
+def extract (s : St) : Data :=
+  let rn := Array.range s.next
+  { parent := rn.map (fun x => s.parent x)
+    kids := rn.map (fun x => s.kids x)
+    loc := rn.map (fun x => s.loc x)
+    grid := rn.map (fun x => s.grid x)
+    owner := (Array.range s.nextGrid).map (fun g => s.owner g)
+    kind := rn.map (fun x => s.kind x)
+    flags := rn.map (fun x => s.flags x)
+    typ := rn.map (fun x => s.typ x)
+    next := s.next
+    nextGrid := s.nextGrid }
+
+def stepD (d : Data) (ws : List String) : Data × String :=
+  let r := stepLine (inject d) ws
+  (extract r.1, r.2)
+
+def main : IO Unit := loopState Data.empty stepD
